@@ -140,6 +140,25 @@ pub fn profile(name: &str) -> Profile {
             import_registrations: false,
             ..base
         },
+        // GC backlog: more expired frames than the collector's queue could ever be expected to hold, passed
+        // over by one read; head:N appends made while the collector is still busy
+        "c09backlog" => Profile {
+            name: "c09backlog",
+            bulk: true,
+            len: (8, 14),
+            w_import: 0,
+            w_kill: 0,
+            w_reopen: 0,
+            w_nul: 0,
+            w_badctx_append: 0,
+            w_ttl: [3, 2, 3, 8, 8],
+            time_ns: &[1, 50, 1_000_000_000],
+            head_ks: &[1, 2, 3],
+            topics: vec!["a".into(), "ab".into(), "".into()],
+            import_registrations: false,
+            nu_paths: false,
+            ..base
+        },
         _ => base,
     }
 }
@@ -1219,13 +1238,15 @@ impl Runner {
     }
 
     fn bulk(&mut self) -> R<()> {
-        let n = 280 + self.rng.below(60) as u64;
-        let size = 60_000u64;
+        let backlog = self.profile.name == "c09backlog";
+        let n = if backlog { 1150 + self.rng.below(700) as u64 } else { 280 + self.rng.below(60) as u64 };
+        let size = if backlog { 8u64 } else { 60_000u64 };
+        let ttl: Option<TTL> = if backlog { Some(TTL::Time(Duration::from_millis(1 + self.rng.below(3) as u64))) } else { None };
         let tag = self.rng.below(1000) as u64;
         let ctx = self.pick_ctx_usable();
         let topic = self.pick_topic();
         let v = self.sess.as_mut().unwrap().call_t(
-            json!({"op": "bulk", "n": n, "size": size, "tag": tag, "topic": topic, "ctx": id_str(ctx)}),
+            json!({"op": "bulk", "n": n, "size": size, "tag": tag, "topic": topic, "ctx": id_str(ctx), "ttl": ttl}),
             Duration::from_secs(300),
         )?;
         let pairs = parse_pairs(&v["ok"]);
@@ -1236,6 +1257,7 @@ impl Runner {
             let f = Frame::builder(topic.clone(), Scru128Id::from(ctx))
                 .id(Scru128Id::from(*id))
                 .meta(json!({"bulk": i, "tag": tag, "pad": pad}))
+                .maybe_ttl(ttl.clone())
                 .build();
             if frame_digest(&f) != *d {
                 return Err(SessionError::Harness("bulk digest mismatch between parent and child".into()));
@@ -1281,6 +1303,29 @@ impl Runner {
             self.step = step;
             if Some(step) == bulk_at {
                 self.bulk()?;
+                if p.name == "c09backlog" {
+                    // every bulk frame expires; one covering read hands >1024 removals to the collector, and while it
+                    // is still busy, head:N appends ask for their own collection
+                    let target = self.model.now.max(real_now_ms()) + 5_000;
+                    self.call(json!({"op": "clock", "ms": target}))?;
+                    self.model.now = target;
+                    self.res.count("ops.clock");
+                    self.res.flags.insert("clock");
+                    self.trace(json!({"clock": target}));
+                    self.sweep()?;
+                    let ctx = self.pick_ctx_usable();
+                    let k = 1 + self.rng.below(2) as u32;
+                    for _ in 0..(k + 2) {
+                        let req = Frame::builder("hb", Scru128Id::from(ctx)).ttl(TTL::Head(k)).build();
+                        self.op_append(req, None)?;
+                    }
+                    self.res.count("backlog.head_appends_while_collector_busy");
+                    self.op_drain()?;
+                    self.sweep()?;
+                    self.check_head_enforced()?;
+                    self.res.count("backlog.rounds");
+                    continue;
+                }
                 self.sweep()?;
                 continue;
             }
